@@ -60,6 +60,9 @@ def _case(draw, tier="quick"):
         spec["weights"] = rng.standard_normal(m).tolist()
     if name == "GradDrop" and draw(st.booleans()):
         spec["leak"] = rng.uniform(0, 1, size=m).tolist()
+        if draw(st.booleans()):  # entries exactly 0 (never leaks) or 1 (always leaks), at any position
+            for i in rng.choice(m, size=int(rng.integers(1, m + 1)), replace=False):
+                spec["leak"][int(i)] = float(rng.integers(0, 2))
     if name == "MGDA" and draw(st.booleans()):
         spec["epsilon"] = draw(st.sampled_from([0.0, 1e-3]))
         spec["max_iters"] = draw(st.sampled_from([1, 3, 10, 100]))
